@@ -22,10 +22,15 @@ def showTok (s : String) : String := if s.isEmpty then "~" else s
 
 def sym (p : String) : String := "H(" ++ showTok p ++ ")"
 
-def crypto : Crypto :=
+/-- the first 72 bytes of a token (plain tokens are ASCII here) -/
+def trunc72 (t : String) : String :=
+  if tokLen t ≤ 72 then t else if t.startsWith "hex:" then (t.take (4 + 144)).toString else (t.take 72).toString
+
+/-- `asis`: `bcrypt.CompareHashAndPassword` looks at the first 72 bytes only (and `validate` does not check the length) -/
+def crypto (asis : Bool) : Crypto :=
   { md5hex := sym, sha256hex := sym,
     bcryptGen := fun p => if tokLen p > 72 then none else some (sym p),
-    bcryptCompare := fun h p => tokLen p ≤ 72 && h == sym p }
+    bcryptCompare := fun h p => if asis then h == sym (trunc72 p) else tokLen p ≤ 72 && h == sym p }
 
 def algOf (s : String) : Option Alg :=
   if s == "plain" then some .plain else if s == "md5" then some .md5 else if s == "sha256" then some .sha256
@@ -52,6 +57,8 @@ structure ASt where
   failSave : Bool := false
   enh : Bool := false
   zl : Bool := true
+  asis : Bool := false
+  pathsEq : Bool := true         -- <ConfigDir>/<password_file> and ./<password_file> are one file
   ncs : List NC := []
 
 def ASt.nc? (st : ASt) (n : String) : Option NC := st.ncs.find? (·.name == n)
@@ -60,8 +67,9 @@ def ASt.dropNc (st : ASt) (n : String) : ASt := { st with ncs := st.ncs.filter (
 
 def ASt.cfg (st : ASt) : Cfg :=
   { allowZeroLenCid := st.zl,
-    basic := if st.auth then some (fun u p => validate crypto st.alg st.store.idx u p) else none,
-    enh := if st.enh then some testHook else none }
+    basic := if st.auth then some (fun u p => validate (crypto st.asis) st.alg st.store.idx u p) else none,
+    enh := if st.enh then some testHook else none,
+    authReadFix := !st.asis }
 
 /-- seed / file spec `H(p)` under `plain` is the password itself -/
 def specHash (alg : Alg) (s : String) : String :=
@@ -111,8 +119,10 @@ def mkConnect (m : List (String × String)) (cid : String) (v : Nat) (uf pf : Bo
     authMethod := if v == 5 then getS m "am" else none, authData := (getS m "ad").getD "" }
 
 /-- feed one packet into a not-accepted connection; on acceptance the stored `conn` line goes to the broker model -/
-def feed (st : ASt) (x : NC) (p : Pkt) : ASt × String :=
-  if x.dead then (st, "send-failed -") else
+def feed (st : ASt) (x : NC) (p : Pkt) (lost : Bool := false) : ASt × String :=
+  if x.dead then (st, if x.c.phase == .awaitAuth then "send-failed -" else "no-conn") else
+  -- as is: during an enhanced authentication the broker does not read; the harness's write times out
+  if x.c.phase == .awaitAuth && !st.cfg.authReadFix then (st.setNc { x with dead := true }, "send-failed -") else
   let (c', effs) := Auth.step st.cfg x.c p
   if c'.phase == .accepted && x.c.phase != .accepted then
     -- `register` + CONNACK are the broker model's
@@ -121,7 +131,7 @@ def feed (st : ASt) (x : NC) (p : Pkt) : ASt × String :=
   else
     let x := { x with c := c', dead := c'.phase == .closed }
     let st := st.setNc x
-    let vis := showEffs effs
+    let vis := if lost then (showEffs effs).filter (fun v => !v.startsWith "connack(") else showEffs effs
     -- a wedged read loop: the harness's next write times out
     if vis.isEmpty then (st, "-") else (st, x.name ++ "|H:" ++ String.intercalate "," vis ++ "|P:")
 
@@ -139,23 +149,24 @@ def step (asis : Bool) (st : ASt) (line : String) : ASt × String :=
     let (_, m) := kvSplit rest
     let (bs, o) := Broker.step {} line
     match getS m "auth" with
-    | none => ({ bs := bs, zl := getN m "zl" 1 == 1 }, o)
+    | none => ({ bs := bs, zl := getN m "zl" 1 == 1, asis := asis }, o)
     | some a =>
       match algOf a with
-      | none => ({ bs := bs }, o)
+      | none => ({ bs := bs, asis := asis }, o)
       | some alg =>
-        let same := !asis || (getS m "pf").getD "rel" == "abs" || (getS m "cwd").getD "same" != "other"
+        let pathsEq := (getS m "pf").getD "rel" == "abs" || (getS m "cwd").getD "same" != "other"
+        let same := !asis || pathsEq
         let seed := parseAccounts alg ((getS m "seed").getD "~")
         let s0 : Store := { loadFile := seed, saveFile := if same then seed else [], same := same }
         let (s1, _) := s0.restart
-        ({ bs := bs, auth := true, alg := alg, store := s1, enh := getN m "enh" 0 == 1, zl := getN m "zl" 1 == 1 }, o)
+        ({ bs := bs, auth := true, alg := alg, store := s1, enh := getN m "enh" 0 == 1, zl := getN m "zl" 1 == 1, asis := asis, pathsEq := pathsEq }, o)
   | op :: rest =>
     if !st.bs.have_ then (st, "no-broker") else
     let (pos, m) := kvSplit rest
     match op, pos with
     | "api", "acct" :: "set" :: u :: p :: _ =>
       if !st.auth then (st, "bad-op") else
-      let (s, r) := st.store.update crypto st.alg (val u) (val p) (!st.failSave)
+      let (s, r) := st.store.update (crypto st.asis) st.alg (val u) (val p) (!st.failSave)
       withCollect { st with store := s, saveExists := st.saveExists || (r == .ok) } (showRes r)
     | "api", "acct" :: "del" :: u :: _ =>
       if !st.auth then (st, "bad-op") else
@@ -173,8 +184,9 @@ def step (asis : Bool) (st : ASt) (line : String) : ASt × String :=
       withCollect st s!"n={st.store.idx.length} {showAccounts st.store.idx}"
     | "api", "acct" :: "file" :: _ =>
       if !st.auth then (st, "bad-op") else
-      let save := if st.store.same then "same" else if st.saveExists then showAccounts st.store.saveFile else "absent"
-      withCollect st s!"load={showAccounts st.store.loadFile} save={save}"
+      -- `cwd=`: the file of the same name in the working directory, when that is another file
+      let save := if st.pathsEq then "same" else if !st.store.same && st.saveExists then showAccounts st.store.saveFile else "absent"
+      withCollect st s!"load={showAccounts st.store.loadFile} cwd={save}"
     | "api", "acct" :: "failsave" :: b :: _ =>
       if !st.auth then (st, "bad-op") else withCollect { st with failSave := b == "1" } "ok"
     | "api", "acct" :: "seedfile" :: spec :: _ =>
@@ -193,7 +205,7 @@ def step (asis : Bool) (st : ASt) (line : String) : ASt × String :=
       let v := getN m "v" 4
       let p := mkConnect m cid v (getS m "user").isSome (getS m "pass").isSome
       -- a fresh socket under this name
-      feed (st.dropNc cn) { name := cn, line := line } (.connect p)
+      feed (st.dropNc cn) { name := cn, line := line } (.connect p) (getN m "lost" 0 == 1)
     | "raw", cn :: _ =>
       match st.nc? cn with
       | none => (st, "bad-op")
@@ -203,7 +215,7 @@ def step (asis : Bool) (st : ASt) (line : String) : ASt × String :=
           let v := getN m "v" 4
           let cid := (getS m "cid").getD "~"
           let p := mkConnect m cid v (getN m "uf" 0 == 1) (getN m "pf" 0 == 1)
-          feed st { x with line := s!"conn {cn} {cid} v={v} cs={getN m "cs" 1}" } (.connect p)
+          feed st { x with line := s!"conn {cn} {cid} v={v} cs={getN m "cs" 1}" } (.connect p) (getN m "lost" 0 == 1)
         else if k == "auth" then feed st x (.auth (getN m "code" 24) ((getS m "ad").getD ""))
         else if k == "publish" then feed st x (.publish (getN m "q" 0))
         else if k == "other" then feed st x .other
@@ -213,11 +225,11 @@ def step (asis : Bool) (st : ASt) (line : String) : ASt × String :=
       | none => broker st line
       | some x =>
         -- an ordinary op on a connection that was never accepted: the packet the harness would send
-        if op == "ack" then (st, "none -")
+        if op == "ack" then (st, if x.dead then "no-conn" else "none -")
         else if op == "close" then
-          if x.dead then (st, "-") else (st.setNc { x with dead := true }, cn ++ "|H:closed|P:")
+          if x.dead then (st, "no-conn") else (st.setNc { x with dead := true }, cn ++ "|H:closed|P:")
         else if op == "disc" then
-          if x.dead then (st, "send-failed -") else
+          if x.dead then (st, "no-conn") else
           let (st1, o1) := feed st x .other
           match st1.nc? cn with
           | some x1 => if x1.dead then (st1, o1 ++ " -") else (st1.setNc { x1 with dead := true }, o1 ++ " " ++ cn ++ "|H:closed|P:")
